@@ -2,7 +2,7 @@
 # usage: tools/try_mutant_wt.sh <patch.diff> <check id>...   - like try_mutant.sh, but /repo is left alone: the change is applied to a
 # scratch worktree under /tmp/wtm and the checks are pointed at it with VERIF_REPO (use this while another run reads /repo)
 set -u
-PATCH=$1; shift
+PATCH=$(realpath "$1"); shift
 WT=/tmp/wtm/$$; mkdir -p /tmp/wtm
 git -C /repo worktree add -q --detach $WT HEAD || exit 9
 trap 'git -C /repo worktree remove --force $WT' EXIT
